@@ -84,6 +84,20 @@ Definition set_failed (m : msg) : M unit := fun s =>
 Definition mark_nf : M unit := fun s => mkOut (Ok tt) s (mkW [] [] [] [] [] 0 true false false).
 Definition mark_dirty : M unit := fun s => mkOut (Ok tt) s (mkW [] [] [] [] [] 0 false false true).
 Definition mark_reg : M unit := fun s => mkOut (Ok tt) s (mkW [] [] [] [] [] 0 false true false).
+(* Draw delivered v to user code on the current T *)
+Definition note_draw (v : val) : M unit := fun s => mkOut (Ok tt) s (mkW [] [] [] [UDraw v] [v] 1 false false false).
+(* run m on a fresh inner T that shares the stream (Custom); afterwards the outer T is back, with a
+   failure signalled on the inner T forwarded to it; inner draws and registrations do not count outside *)
+Definition with_fresh_T {A} (m : M A) : M A := fun s =>
+  let outer := ts s in
+  let o := m (with_ts s fresh_t) in
+  let inner := ts (post o) in
+  let outer' := match failed inner with
+                | Some msg => mkT (Some msg) (cleanups outer) (ctx outer) (cleaning outer)
+                | None => outer end in
+  let w' := w o in
+  mkOut (res o) (with_ts (post o) outer')
+        (mkW (rd w') (rpd w') (glog w') (tr w') (pv w') 0 (nf w') false (dirty w')).
 (* map over the writer of a computation (used to discard, to reset counters at a T boundary ...) *)
 Definition wmap {A} (f : wr -> wr) (m : M A) : M A := fun s =>
   let o := m s in mkOut (res o) (post o) (f (w o)).
